@@ -900,7 +900,7 @@ func runTx(w *world, o *observer, i int, t txSpec, check bool) txRun {
 }
 
 var curTable *table
-var totalFailedNested, totalStaticNested int
+var totalFailedNested, totalStaticNested, rootChecks int
 
 func (w *world) initCode(id int) []byte { return curTable.compile(id, true) }
 
@@ -954,8 +954,89 @@ func coqInit(l []iacct) string {
 
 // ---------- one generated case ----------
 func runCase(seed uint64, res *hx.Result, cs *hx.Cases, n int) {
+	runSpec(seed, nil, "", res, cs)
+}
+
+// matrixSpecs: every frame kind x every state-modifying action inside it x every way the frame ends, at nesting
+// depth 1 (11 -> 17) and depth 2 (11 -> 12 -> 17, the middle frame succeeding or reverting).
+func matrixSpecs() ([]*caseSpec, []string) {
+	var out []*caseSpec
+	var names []string
+	kinds := []string{"call", "callcode", "delegate", "static", "create", "create2"}
+	inners := []string{"sstore", "tstore", "log", "callvalue", "create", "selfdestruct"}
+	fins := []string{"stop", "revert", "invalid"}
+	for _, depth := range []string{"d1", "d2-mid-ok", "d2-mid-revert"} {
+		for _, k := range kinds {
+			for _, in := range inners {
+				for _, f := range fins {
+					if in == "selfdestruct" && f != "stop" {
+						continue
+					}
+					t := &table{}
+					add := func(p Prog) int { t.progs = append(t.progs, p); return len(t.progs) }
+					rt := add(Prog{Acts: []Action{{Op: "sstore", K: 1, V: 1}}, Fin: "stop"})
+					in2 := add(Prog{Acts: []Action{{Op: "sstore", K: 2, V: 2}}, Fin: "return", FinArg: rt})
+					body := Prog{Fin: f}
+					switch in {
+					case "sstore":
+						body.Acts = []Action{{Op: "sstore", K: 2, V: 3}}
+					case "tstore":
+						body.Acts = []Action{{Op: "tstore", K: 2, V: 2}}
+					case "log":
+						body.Acts = []Action{{Op: "log", K: 7}}
+					case "callvalue":
+						body.Acts = []Action{{Op: "call", Kind: "call", Target: idEOA, Value: 3}}
+					case "create":
+						body.Acts = []Action{{Op: "create", Init: in2, Value: 0}}
+					case "selfdestruct":
+						body.Acts = []Action{{Op: "sstore", K: 3, V: 1}}
+						body.Fin, body.FinArg = "selfdestruct", idEOA
+					}
+					var act Action
+					cs := &caseSpec{t: t, codeAt: map[int]int{}, originObj: true}
+					if k == "create" || k == "create2" {
+						if body.Fin == "stop" {
+							body.Fin, body.FinArg = "return", rt
+						}
+						act = Action{Op: "create", Init: add(body), Create2: k == "create2", Salt: 1, Value: 3}
+						cs.codeAt[idC0+6] = add(Prog{Fin: "stop"})
+					} else {
+						cs.codeAt[idC0+6] = add(body)
+						act = Action{Op: "call", Kind: k, Target: idC0 + 6}
+						if k == "call" || k == "callcode" {
+							act.Value = 5
+						}
+					}
+					for lvl := 2; lvl < 6; lvl++ {
+						cs.codeAt[idC0+lvl] = add(Prog{Acts: []Action{{Op: "log", K: 1}}, Fin: "stop"})
+					}
+					if depth == "d1" {
+						cs.codeAt[idC0] = add(Prog{Acts: []Action{{Op: "sstore", K: 3, V: 1}, act, {Op: "log", K: 2}}, Fin: "stop"})
+						cs.codeAt[idC0+1] = add(Prog{Fin: "stop"})
+					} else {
+						mf := "stop"
+						if depth == "d2-mid-revert" {
+							mf = "revert"
+						}
+						cs.codeAt[idC0+1] = add(Prog{Acts: []Action{{Op: "sstore", K: 1, V: 3}, act, {Op: "tstore", K: 2, V: 1}}, Fin: mf})
+						cs.codeAt[idC0] = add(Prog{Acts: []Action{{Op: "call", Kind: "call", Target: idC0 + 1}, {Op: "log", K: 2}}, Fin: "stop"})
+					}
+					cs.txs = []txSpec{{Target: idC0}}
+					out = append(out, cs)
+					names = append(names, fmt.Sprintf("matrix|%s|%s|%s|%s", depth, k, in, f))
+				}
+			}
+		}
+	}
+	return out, names
+}
+
+func runSpec(seed uint64, fixed *caseSpec, name string, res *hx.Result, cs *hx.Cases) {
 	r := hx.NewRng(seed)
-	spec := genCase(r)
+	spec := fixed
+	if spec == nil {
+		spec = genCase(r)
+	}
 	curTable = spec.t
 	init := spec.initial(r)
 
@@ -1080,6 +1161,30 @@ func runCase(seed uint64, res *hx.Result, cs *hx.Cases, n int) {
 		}
 		desc = append(desc, fmt.Sprintf("out=%d snaps=%d reverts=%d undone=%d", tr.out, tr.rec.snaps, tr.rec.reverts, tr.rec.undone))
 	}
+	// state root: a failed top-level call must be a no-op, so leaving it out gives the same root (and the same
+	// logs). World B executes the successful transactions only (Prepare is still called for every one).
+	anyFailedCall := false
+	for i, t := range spec.txs {
+		if runs[i].out != 0 && !t.Create {
+			anyFailedCall = true
+		}
+	}
+	if anyFailedCall {
+		wb := spec.build(init)
+		for i, t := range spec.txs {
+			if runs[i].out != 0 && !t.Create {
+				wb.adb.Prepare(hashOf(uint64(i+1)), common.Hash{}, i)
+				continue
+			}
+			runTx(wb, o, i, t, false)
+		}
+		ra, rb := w.adb.IntermediateRoot(true), wb.adb.IntermediateRoot(true)
+		if ra != rb {
+			res.Violate("C12/failed-frame:top-level:state-root", fmt.Sprintf("IntermediateRoot(true) is %s with the failed top-level calls executed and %s with them left out", ra.Hex(), rb.Hex()),
+				map[string]interface{}{"seed": seed, "programs": progDump(spec), "txs": spec.txs})
+		}
+		rootChecks++
+	}
 	// outcome class
 	cls := "no-failed-frame"
 	if features["undone"] {
@@ -1095,7 +1200,12 @@ func runCase(seed uint64, res *hx.Result, cs *hx.Cases, n int) {
 	}
 	totalFailedNested += nFailed
 	totalStaticNested += nStatic
-	res.Count(cls, fmt.Sprintf("%x", seed), features["undone"])
+	if name != "" {
+		cls = "matrix|" + strings.Split(name, "|")[1] + "|" + cls
+		res.Count(cls, name, true)
+	} else {
+		res.Count(cls, fmt.Sprintf("%x", seed), features["undone"])
+	}
 	if len(res.Samples) < 6 && features["undone"] {
 		res.Sample(map[string]interface{}{"seed": seed, "txs": spec.txs, "programs": progDump(spec), "runs": desc})
 	}
@@ -1133,7 +1243,7 @@ func runCase(seed uint64, res *hx.Result, cs *hx.Cases, n int) {
 				nlist(tr.prep), tr.out, strings.Join(rl, ";"), nlist(tr.post)))
 		}
 		term := fmt.Sprintf("Case [%s] %s %s %s %s [%s]", strings.Join(progs, "; "), coqInit(init), nlist(addrs), nlist(keys), nlist(hashes), strings.Join(txs, "; "))
-		cs.Add(term, map[string]interface{}{"seed": seed, "txs": spec.txs, "programs": progDump(spec)})
+		cs.Add(term, map[string]interface{}{"seed": seed, "matrix": name, "txs": spec.txs, "programs": progDump(spec)})
 	}
 }
 
@@ -1350,6 +1460,76 @@ func customStatic(res *hx.Result) {
 	}
 }
 
+// a failed AUTHCALL frame: evm.AuthCall bumps the authority's nonce before its Snapshot (as create does for the
+// creator); everything the callee did must be gone.
+func authcallFailedFrame(res *hx.Result) {
+	inv, callee, origin := addrOf(0x32), addrOf(0x34), addrOf(idOrigin)
+	priv := make([]byte, 32)
+	priv[31] = 7
+	var commit [32]byte
+	sig, authority := authSig(priv, common.GetChainId(runHeight), inv, commit)
+	a := &asm{}
+	a.op(opCALLDATASIZE).push(0).push(0).op(opCALLDATACOPY)
+	a.push(128).push(0).pushAddr(authority).op(opAUTH, opPOP)
+	a.push(0).push(0).push(0).push(0).push(0).push(9).pushAddr(callee).push(100000000).push(0).op(opAUTHCALL, opPOP, opSTOP)
+	c := &asm{}
+	c.push(5).push(1).op(opSSTORE).push(4).push(0).push(0).op(opLOG1).push(2).push(1).op(opTSTORE).push(0).push(0).op(opREVERT)
+	w := newWorld()
+	w.adb.SetBalance(origin, bigU(1000000))
+	w.adb.SetNonce(origin, 5)
+	w.adb.SetNonce(inv, 1)
+	w.adb.SetCode(inv, a.b)
+	w.adb.SetNonce(callee, 1)
+	w.adb.SetCode(callee, c.b)
+	w.boundary()
+	adb := w.adb
+	adb.Prepare(hashOf(1), common.Hash{}, 0)
+	o := &observer{addrID: map[common.Address]int{}, codeID: map[common.Hash]int{}, hashID: map[common.Hash]int{hashOf(1): 1}, hashes: []common.Hash{hashOf(1)}}
+	for i, x := range []common.Address{origin, inv, callee, authority} {
+		o.addrs = append(o.addrs, x)
+		o.addrID[x] = i + 1
+	}
+	before := o.obs(adb)
+	evm := newEVM(adb, adb, origin)
+	var err error
+	func() {
+		defer func() {
+			if x := recover(); x != nil {
+				err = fmt.Errorf("panic: %v", x)
+			}
+		}()
+		_, _, _, err = evm.Call(vm.AccountRef(origin), inv, sig, 3000000000, big.NewInt(0))
+	}()
+	after := o.obs(adb)
+	in := map[string]interface{}{"invoker": hex.EncodeToString(a.b), "callee": hex.EncodeToString(c.b), "calldata": hex.EncodeToString(sig)}
+	cls := "custom|authcall-failed-frame|clean"
+	if err != nil {
+		res.Violate("C12/failed-frame:authcall:setup", "the invoker call failed: "+err.Error(), in)
+	}
+	bumped := false
+	for d := range before {
+		if before[d] == after[d] {
+			continue
+		}
+		n := o.fieldName(d)
+		// the authority (address 4): created by the nonce bump, nonce 0 -> 1; the callee enters the access list in gasAuthCall
+		if n == "nonce(4)" || n == "exist(4)" {
+			bumped = true
+			continue
+		}
+		if n == "accesslist(3)" {
+			continue
+		}
+		cls = "custom|authcall-failed-frame|trace"
+		res.Violate("C12/failed-frame:authcall:"+fieldClass(n), fmt.Sprintf("the AUTHCALL callee reverted but %s changed: %d -> %d", n, before[d], after[d]), in)
+	}
+	if !bumped {
+		res.Note("authcall-failed-frame: the authority nonce was not bumped (AUTH did not succeed?)")
+		cls = "custom|authcall-failed-frame|auth-not-reached"
+	}
+	res.Count(cls, "authcall-failed-frame", bumped)
+}
+
 // ---------- Prepare at the AccountDB level ----------
 func prepareDirect(res *hx.Result) {
 	w := newWorld()
@@ -1380,7 +1560,7 @@ func prepareDirect(res *hx.Result) {
 
 func main() {
 	a := hx.ParseArgs()
-	res := hx.NewResult("a case (1-3 transactions over 7 generated contracts) is non-trivial when at least one call frame failed after it had appended journal entries (state changes were actually undone); static cases when the static tree has nested frames; distinct = distinct generator seed (distinct program tables)")
+	res := hx.NewResult("a case (1-3 transactions over 7 generated contracts) is non-trivial when at least one call frame failed after it had appended journal entries (state changes were actually undone); static cases when the static tree has nested frames; distinct = distinct generator seed (distinct program tables); the 288 cases of the fixed matrix (frame kind x state-modifying action x ending x depth) and the custom-opcode / Prepare / opcode-table evaluations count as non-trivial, distinct by name")
 	boot()
 	if a.Tier == "table" {
 		tableCase(a.Out, res)
@@ -1392,15 +1572,20 @@ func main() {
 	for i := 0; i < nModel; i++ {
 		runCase(rng.U64(), res, cs, i)
 	}
+	ms, mn := matrixSpecs()
+	for i, m := range ms {
+		runSpec(uint64(7000+i), m, mn[i], res, cs)
+	}
 	cs.Close()
 	for i := 0; i < a.N/2; i++ {
 		runStaticCase(rng.U64(), res)
 	}
 	customStatic(res)
+	authcallFailedFrame(res)
 	prepareDirect(res)
 	tableCase(a.Out, res)
 	res.ModelCases = cs.Total() + tableCases
-	res.Note(fmt.Sprintf("nested frames checked by probes: %d failed frames, %d static frames", totalFailedNested, totalStaticNested))
+	res.Note(fmt.Sprintf("nested frames checked by probes: %d failed frames, %d static frames; %d state-root comparisons (failed top-level calls left out)", totalFailedNested, totalStaticNested, rootChecks))
 	res.Write(a.Out)
 	fmt.Printf("c12: %d evaluations, %d model cases, distinct nontrivial %d\n", res.Evaluations, res.ModelCases, res.DistinctNontrivial)
 	hk := []string{}
